@@ -810,3 +810,30 @@ Theorem C05_db_query_insert_values_preserves_stored_db :
                                     frame (hp sp) (hp sp') (sd_foot root w) (sd_foot root w')).
 Proof. exact so_q_insert_values_stored. Qed.
 Print Assumptions C05_db_query_insert_values_preserves_stored_db.
+
+(* ---- DbKeyValues::remove and the PUBLIC REMOVAL OF AN EDGE (theories/StoredDbOpsKv4.v, StoredDbOpsRemove.v) ----
+   so_kv_remove = DbKeyValues::remove: valid_index, kvs, remove_from_storage of the element's vector (the out-of-line
+   records of every pair and the vector record are freed: the footprint shrinks, `frame ... []`), then the slot vector is
+   popped (VecImpl::remove) when it was the last slot, else the slot is set to 0.  so_q_remove h e for an edge id e =
+   what QueryBuilder::remove().ids(e) issues inside transaction_mut's storage transaction: DbImpl::remove_id =
+   graph.remove_edge + remove_all_values (none of the edge's keys indexed).  It keeps the database stored and computes
+   DbModel's remove_all_values (remove_edge_db d e).
+   so_slot_valid (a condition on the WITNESS, i.e. on the file): the element has a property vector (slot <> 0 — every element
+   inserted through the public API, which always reserves capacity) or lies beyond the slot vector.  It is needed: for a
+   LAST slot holding 0 the code returns at valid_index and keeps the slot, while DbModel's kvs_remove pops the entry — a
+   discrepancy between DbModel's `vals` length and the file that no query observes and no API history reaches. *)
+From Agdb Require Import StoredDbOpsKv4 StoredDbOpsRemove.
+
+Theorem C05_db_query_remove_edge_preserves_stored_db :
+  forall (fl : bool) root d w h e sp,
+    stored_db_w (hp sp) root d w -> so_handles h w -> (e < 0)%Z ->
+    so_graph_ok (gr d) -> so_remove_edge_ok (gr d) e ->
+    so_slot_valid (sw_vi w) (zabs_nat e) ->
+    (forall x, In x (kvs_get (vals d) e) -> idx_find (indexes d) (fst x) = None) ->
+    cwp fl (so_q_remove h e) sp
+        (fun r sp' => exists G' h' w', Graph.remove_edge (gr d) e = Some G' /\ r = CrOk h' /\
+                        stored_db_w (hp sp') root (remove_all_values (fst (remove_edge_db d e)) e) w' /\
+                        so_handles h' w' /\ sdepth sp' = sdepth sp /\
+                        frame (hp sp) (hp sp') (sd_foot root w) (sd_foot root w')).
+Proof. exact so_q_remove_edge_stored. Qed.
+Print Assumptions C05_db_query_remove_edge_preserves_stored_db.
